@@ -212,7 +212,7 @@ DFinishType == /\ st.ph \in {"head", "fields", "body"} /\ ~st.cur.fn
                                            IN st' = [st EXCEPT !.ph = "idle", !.w = @ + wd, !.done = Append(@, c), !.cur = NoComb]
 DFinishFn == /\ st.ph \in {"head", "fields"} /\ st.cur.fn
              /\ \E w \in 0..MaxTW : /\ w <= Left
-                                    /\ \E t \in (IF Sem THEN SemTy(w) ELSE TyW(w)) :
+                                    /\ \E t \in (IF Sem THEN {u \in SemTy(w) : ~u.b /\ ~LowerStart(u.nm)} ELSE TyW(w)) :   \* the compiler wants a boxed result
                                          st' = [st EXCEPT !.ph = "idle", !.w = @ + w,
                                                   !.done = Append(@, [st.cur EXCEPT !.res = <<t>>]), !.cur = NoComb]
 
